@@ -22,6 +22,12 @@ import TraitsVerif.Lemmas.ObsInvSetItems
 import TraitsVerif.Lemmas.ObsInvDictItems
 import TraitsVerif.Lemmas.ObsInvAddTrait
 import TraitsVerif.Lemmas.ObsInvContDefault
+import TraitsVerif.Lemmas.ObsInvDel
+import TraitsVerif.Lemmas.MaintainSource
+import TraitsVerif.Lemmas.ObsInvFilteredAdd
+import TraitsVerif.Lemmas.ObsInvFilteredCont
+import TraitsVerif.Lemmas.ObsInvFilteredList
+import TraitsVerif.Lemmas.ObsInvFiltered
 import TraitsVerif.Lemmas.ObsSource
 import TraitsVerif.Lemmas.NotifierSource
 namespace TraitsVerif.Props.C08
@@ -201,7 +207,9 @@ mutation of an observed set / dict.
 Container defaults (`List` / `Dict` / `Set` traits read for the first time) are covered by
 `C08_default_materialise_container_partial` (Lemmas/ObsInvContDefault.lean: allocation of an unreferenced cell).
 NOT covered (stay correspondence-checked only): the arms of
-`clear` on an EMPTY container (no event, only the heap cell changes), `del obj.trait` (composed by the driver), `filtered` nodes, the silent default of F80. -/
+`clear` on an EMPTY container (no event, only the heap cell changes), `del obj.trait` beyond the three harmless arms of
+`C08_hooks_eq_reach_partial_del` (F99: `C08_del_rehooks_default_twice`), `filtered` nodes in `read` / `fires_iff` (assignment, list / set / dict mutations and `add_trait` allow them:
+`C08_hooks_eq_reach_partial_*_filtered` below), the silent default of F80. -/
 
 /-- Assignment `o.n = v` to a materialised trait: the hooks are again exactly the
 from-scratch hooks of the new heap, and nothing raises.  Series and parallel
@@ -726,6 +734,245 @@ example : cnt (mutate {} cSt (.read 0 nKids 100)).st.H (.cont 100) (.user cKey) 
       (.maint .list (.node (.named nValue true false) []) cKey) = 1 ∧
     (mutate {} cSt (.read 0 nKids 100)).delivered = [] ∧
     cnt (mutate {} (mutate {} cSt (.read 0 nKids 100)).st (.listAppend 100 1)).st.H (.trait 1 nValue) (.user cKey) = 1 := by
+  decide
+
+
+/-! ### `filtered` nodes (`*`, `+metadata`) inside the fragments (Lemmas/ObsInvFiltered*.lean) -/
+
+/-- Assignment `o.n = v` to a materialised trait when the registrations MAY contain `filtered`
+nodes (`*`, `+metadata`): the hooks are again exactly the from-scratch hooks of the new heap and
+nothing raises.  `C08_hooks_eq_reach_partial` without `noFiltered`; what replaces it is
+`SetFragF.shape`: `f` is the only field of `o` called `n` (trait names of an object are distinct,
+`Shape.of_nodup`) — a filter's verdict on a trait depends on its name and metadata, which an
+assignment does not change.  A `filtered` node standing on `o` whose filter matches `n` reads the
+assigned trait among all the other matching traits of `o`; those are left alone (`decF`,
+`localityF`, Lemmas/ObsInvFiltered.lean).  `noSelfReach` (F10) and `eqStruct` stay. -/
+theorem C08_hooks_eq_reach_partial_filtered (E : Env) (st : St) (regs : List Reg) (o : Id) (n : Name) (v : Val)
+    (fresh : Id) (f : Field) (pre post : List Field) (hinv : HooksEqReach st.h st.H regs)
+    (fr : SetFragF E st regs o n v f pre post) (hset : f.val ≠ .unset) :
+    HooksEqReach (mutate E st (.setField o n v fresh)).st.h (mutate E st (.setField o n v fresh)).st.H regs ∧
+    (mutate E st (.setField o n v fresh)).err = none :=
+  setField_preservesF E st regs o n v fresh f pre post hinv fr hset
+
+/-! non-vacuity of `C08_hooks_eq_reach_partial_filtered`: `a.child = b`, a quiet `*` node on `a`
+above an optional notifying `value` (state `FilteredWitness.wSt`, hypotheses `FilteredWitness.wFrag`
+proved in Lemmas/ObsInvFiltered.lean); `a.child = c` -/
+open FilteredWitness in
+example : HooksEqReach (mutate {} wSt (.setField 0 nChild (.ref 2) 0)).st.h
+    (mutate {} wSt (.setField 0 nChild (.ref 2) 0)).st.H wRegs :=
+  (C08_hooks_eq_reach_partial_filtered {} wSt wRegs 0 nChild (.ref 2) 0 (FilteredWitness.fld nChild (.ref 1))
+    [FilteredWitness.fld nValue (.int 0)] [FilteredWitness.fld nTraitAdded .unset] wInv wFrag
+    (by simp [FilteredWitness.fld])).1
+
+open FilteredWitness in
+/-- `c.value` hooked, `b.value` released, and `c.value = 6` is delivered once -/
+example : cnt wSt.H (.trait 1 nValue) (.user wKey) = 1 ∧
+    cnt (mutate {} wSt (.setField 0 nChild (.ref 2) 0)).st.H (.trait 2 nValue) (.user wKey) = 1 ∧
+    cnt (mutate {} wSt (.setField 0 nChild (.ref 2) 0)).st.H (.trait 1 nValue) (.user wKey) = 0 ∧
+    (mutate {} (mutate {} wSt (.setField 0 nChild (.ref 2) 0)).st (.setField 2 nValue (.int 6) 0)).delivered =
+      [.trait wKey 2 nValue (.int 5) (.int 6)] := by decide
+
+/-- Mutations of an observed list when the registrations MAY contain `filtered` nodes (`*`,
+`+metadata`), above or below the list: `C08_hooks_eq_reach_partial_list` / `_slice` with `ListCoreF`
+= `ListCore` WITHOUT `noFiltered` and no hypothesis in its place — a container cell is neither read
+nor yielded by a `filtered` node (Lemmas/ObsInvFilteredList.lean: `GenA.decA`, `localityA`,
+`stable_at_targetA`, `listRel_updA`). -/
+theorem C08_hooks_eq_reach_partial_list_filtered (E : Env) (st : St) (regs : List Reg) (c : Id) (items : List Id)
+    (hinv : HooksEqReach st.h st.H regs) :
+    (∀ x, ListCoreF E st regs c items (items ++ [x]) (.list items.length [] [x]) →
+      HooksEqReach (mutate E st (.listAppend c x)).st.h (mutate E st (.listAppend c x)).st.H regs ∧
+      (mutate E st (.listAppend c x)).err = none) ∧
+    (∀ i x, i ≤ items.length → ListCoreF E st regs c items (items.take i ++ x :: items.drop i) (.list i [] [x]) →
+      HooksEqReach (mutate E st (.listInsert c i x)).st.h (mutate E st (.listInsert c i x)).st.H regs ∧
+      (mutate E st (.listInsert c i x)).err = none) ∧
+    (∀ i y, items[i]? = some y → ListCoreF E st regs c items (items.eraseIdx i) (.list i [y] []) →
+      HooksEqReach (mutate E st (.listDel c i)).st.h (mutate E st (.listDel c i)).st.H regs ∧
+      (mutate E st (.listDel c i)).err = none) ∧
+    (∀ i x y, items[i]? = some y → ListCoreF E st regs c items (items.set i x) (.list i [y] [x]) →
+      HooksEqReach (mutate E st (.listSet c i x)).st.h (mutate E st (.listSet c i x)).st.H regs ∧
+      (mutate E st (.listSet c i x)).err = none) ∧
+    (items.isEmpty = false → ListCoreF E st regs c items [] (.list 0 items []) →
+      HooksEqReach (mutate E st (.listClear c)).st.h (mutate E st (.listClear c)).st.H regs ∧
+      (mutate E st (.listClear c)).err = none) ∧
+    (∀ xs, xs.isEmpty = false → ListCoreF E st regs c items (items ++ xs) (.list items.length [] xs) →
+      HooksEqReach (mutate E st (.listExtend c xs)).st.h (mutate E st (.listExtend c xs)).st.H regs ∧
+      (mutate E st (.listExtend c xs)).err = none) ∧
+    (∀ i j xs, i ≤ j ∧ j ≤ items.length → (((items.drop i).take (j - i)).isEmpty && xs.isEmpty) = false →
+      ListCoreF E st regs c items (items.take i ++ xs ++ items.drop j) (.list i ((items.drop i).take (j - i)) xs) →
+      HooksEqReach (mutate E st (.listSlice c i j xs)).st.h (mutate E st (.listSlice c i j xs)).st.H regs ∧
+      (mutate E st (.listSlice c i j xs)).err = none) :=
+  ⟨fun x core => listAppend_preservesF E st regs c x items hinv core,
+   fun i x hi core => listInsert_preservesF E st regs c i x items hi hinv core,
+   fun i y hy core => listDel_preservesF E st regs c i y items hy hinv core,
+   fun i x y hy core => listSet_preservesF E st regs c i x y items hy hinv core,
+   fun hne core => listClear_preservesF E st regs c items hne hinv core,
+   fun xs hne core => listExtend_preservesF E st regs c xs items hne hinv core,
+   fun i j xs hij hne core => listSlice_preservesF E st regs c i j xs items hij hne hinv core⟩
+
+/-! non-vacuity: `a.kids = [b]` observed through a quiet `*` node on `a` (`*` → optional `items` →
+`value`; state `FilteredListWitness.wSt`, hypotheses `wCore`); `a.kids.append(c)` -/
+open FilteredListWitness in
+example : HooksEqReach (mutate {} wSt (.listAppend 100 2)).st.h (mutate {} wSt (.listAppend 100 2)).st.H wRegs :=
+  ((C08_hooks_eq_reach_partial_list_filtered {} wSt wRegs 100 [1] wInv).1 2 wCore).1
+
+open FilteredListWitness in
+example : cnt wSt.H (.trait 2 nValue) (.user wKey) = 0 ∧
+    cnt (mutate {} wSt (.listAppend 100 2)).st.H (.trait 2 nValue) (.user wKey) = 1 ∧
+    cnt (mutate {} wSt (.listAppend 100 2)).st.H (.trait 1 nValue) (.user wKey) = 1 := by decide
+
+/-- Mutations of an observed SET container when the registrations MAY contain `filtered` nodes:
+`C08_hooks_eq_reach_partial_set` with `SetCoreF` = `SetCore` WITHOUT `noFiltered`, nothing in its
+place (Lemmas/ObsInvFilteredCont.lean). -/
+theorem C08_hooks_eq_reach_partial_set_filtered (E : Env) (st : St) (regs : List Reg) (c : Id) (items : List Id)
+    (hinv : HooksEqReach st.h st.H regs) :
+    (∀ x, x ∉ items → SetCoreF E st regs c items (insertSorted x items) (.set [] [x]) →
+      HooksEqReach (mutate E st (.setAdd c x)).st.h (mutate E st (.setAdd c x)).st.H regs ∧
+      (mutate E st (.setAdd c x)).err = none) ∧
+    (∀ x, x ∈ items → items.Nodup → SetCoreF E st regs c items (items.filter (· != x)) (.set [x] []) →
+      HooksEqReach (mutate E st (.setDiscard c x)).st.h (mutate E st (.setDiscard c x)).st.H regs ∧
+      (mutate E st (.setDiscard c x)).err = none) ∧
+    (items.isEmpty = false → SetCoreF E st regs c items [] (.set items []) →
+      HooksEqReach (mutate E st (.setClear c)).st.h (mutate E st (.setClear c)).st.H regs ∧
+      (mutate E st (.setClear c)).err = none) :=
+  ⟨fun x hx core => setAdd_preservesF E st regs c x items hx hinv core,
+   fun x hx hnd core => setDiscard_preservesF E st regs c x items hx hnd hinv core,
+   fun hne core => setClear_preservesF E st regs c items hne hinv core⟩
+
+/-- Mutations of an observed DICT container when the registrations MAY contain `filtered` nodes:
+`C08_hooks_eq_reach_partial_dict` with `DictCoreF` = `DictCore` WITHOUT `noFiltered`. -/
+theorem C08_hooks_eq_reach_partial_dict_filtered (E : Env) (st : St) (regs : List Reg) (c : Id) (d : List (Key × Id))
+    (hinv : HooksEqReach st.h st.H regs) :
+    (∀ k x, d.find? (·.1 == k) = none → DictCoreF E st regs c d (d ++ [(k, x)]) (.dict [] [(k, x)]) →
+      HooksEqReach (mutate E st (.dictSet c k x)).st.h (mutate E st (.dictSet c k x)).st.H regs ∧
+      (mutate E st (.dictSet c k x)).err = none) ∧
+    (∀ k k' x y, d.find? (·.1 == k) = some (k', y) → (d.map (·.1)).Nodup →
+      DictCoreF E st regs c d (d.map (fun kv => if kv.1 == k then (k, x) else kv)) (.dict [(k, y)] [(k, x)]) →
+      HooksEqReach (mutate E st (.dictSet c k x)).st.h (mutate E st (.dictSet c k x)).st.H regs ∧
+      (mutate E st (.dictSet c k x)).err = none) ∧
+    (∀ k k' y, d.find? (·.1 == k) = some (k', y) → (d.map (·.1)).Nodup →
+      DictCoreF E st regs c d (d.filter (·.1 != k)) (.dict [(k, y)] []) →
+      HooksEqReach (mutate E st (.dictDel c k)).st.h (mutate E st (.dictDel c k)).st.H regs ∧
+      (mutate E st (.dictDel c k)).err = none) ∧
+    (d.isEmpty = false → DictCoreF E st regs c d [] (.dict d []) →
+      HooksEqReach (mutate E st (.dictClear c)).st.h (mutate E st (.dictClear c)).st.H regs ∧
+      (mutate E st (.dictClear c)).err = none) :=
+  ⟨fun k x hk core => dictSet_new_preservesF E st regs c k x d hk hinv core,
+   fun k k' x y hk hnd core => dictSet_overwrite_preservesF E st regs c k k' x y d hk hnd hinv core,
+   fun k k' y hk hnd core => dictDel_preservesF E st regs c k k' y d hk hnd hinv core,
+   fun hne core => dictClear_preservesF E st regs c d hne hinv core⟩
+
+/-! non-vacuity: `a.group = {b, c}` / `a.byname = {1: b, 2: b}` observed through a quiet `*` node on `a`
+(`*` → optional items → `value`; `FilteredSetWitness` / `FilteredDictWitness` in Lemmas/ObsInvFilteredCont.lean) -/
+open FilteredSetWitness in
+example : HooksEqReach (mutate {} wSt (.setDiscard 100 1)).st.h (mutate {} wSt (.setDiscard 100 1)).st.H wRegs :=
+  ((C08_hooks_eq_reach_partial_set_filtered {} wSt wRegs 100 [1, 2] wInv).2.1 1 (by decide) (by decide) wCore).1
+
+open FilteredSetWitness in
+example : cnt wSt.H (.trait 1 nValue) (.user wKey) = 1 ∧
+    cnt (mutate {} wSt (.setDiscard 100 1)).st.H (.trait 1 nValue) (.user wKey) = 0 ∧
+    cnt (mutate {} wSt (.setDiscard 100 1)).st.H (.trait 2 nValue) (.user wKey) = 1 := by decide
+
+open FilteredDictWitness in
+/-- the same object under two keys, one key deleted: reference count 2 ↦ 1 -/
+example : HooksEqReach (mutate {} wSt (.dictDel 100 1)).st.h (mutate {} wSt (.dictDel 100 1)).st.H wRegs :=
+  ((C08_hooks_eq_reach_partial_dict_filtered {} wSt wRegs 100 [(1, 1), (2, 1)] wInv).2.2.1 1 1 1 rfl (by decide) wCore).1
+
+open FilteredDictWitness in
+example : cnt wSt.H (.trait 1 nValue) (.user wKey) = 2 ∧
+    cnt (mutate {} wSt (.dictDel 100 1)).st.H (.trait 1 nValue) (.user wKey) = 1 := by decide
+
+/-- `o.add_trait(n, …)` for a NEW name when the registrations MAY contain `filtered` nodes:
+`C08_hooks_eq_reach_partial_add_trait` (first conjunct) with `AddCoreF` = `AddCore` WITHOUT
+`noFiltered`, nothing in its place.  A `filtered` node standing on `o` whose filter matches the new
+trait (always for `*`, iff `tagged` for `+tag`) gains the observable `o.n` next to those it already
+had, like a `named n` node; its `trait_added` maintainer matches and hooks exactly that
+(Lemmas/ObsInvFilteredAdd.lean: `AddRelF`, `add_decF`, `added_atF`, `addG_gainsF`). -/
+theorem C08_hooks_eq_reach_partial_add_trait_filtered (E : Env) (st : St) (regs : List Reg) (o : Id) (n : Name)
+    (tagged : Bool) (d : Dflt) (fs : List Field) (hinv : HooksEqReach st.h st.H regs)
+    (core : AddCoreF E st regs o n tagged d fs) (hn : findField fs n = none) :
+    HooksEqReach (mutate E st (.addTrait o n tagged d)).st.h (mutate E st (.addTrait o n tagged d)).st.H regs ∧
+    (mutate E st (.addTrait o n tagged d)).err = none :=
+  addTrait_preservesF E st regs o n tagged d fs hinv core hn
+
+/-! non-vacuity: `a.child = b`, `child.*` observed on `a` (notifying `*` node on `b`; state
+`FilteredAddWitness.aSt`, hypotheses `aCore`); `b.add_trait("value", …)` -/
+open FilteredAddWitness in
+example : HooksEqReach (mutate {} aSt (.addTrait 1 nValue false (.val (.int 0)))).st.h
+    (mutate {} aSt (.addTrait 1 nValue false (.val (.int 0)))).st.H aRegs :=
+  (C08_hooks_eq_reach_partial_add_trait_filtered {} aSt aRegs 1 nValue false (.val (.int 0)) aFs aInv aCore rfl).1
+
+open FilteredAddWitness in
+/-- the new trait is hooked by the `*` node, and a later `b.value = 4` is delivered once -/
+example : cnt aSt.H (.trait 1 nValue) (.user aKey) = 0 ∧
+    cnt (mutate {} aSt (.addTrait 1 nValue false (.val (.int 0)))).st.H (.trait 1 nValue) (.user aKey) = 1 ∧
+    ((mutate {} (mutate {} aSt (.addTrait 1 nValue false (.val (.int 0)))).st
+      (.setField 1 nValue (.int 4) 0)).delivered.filter (fun d => d.key == aKey)).length = 1 := by decide
+
+/-! ### the maintainer is the interpreted source -/
+
+open TraitsVerif.Model.ObsL in
+/-- SOURCE TIE.  What a `.trait` maintainer does when its link changes — `maintTrait … .trait` = `removeOld` (walk
+the downstream graph from the old value with remove=True unless the value is Undefined / Uninitialized / None,
+swallowing NotifierNotFound) then `addNew` — is the interpretation of `observer_change_handler`
+(_has_traits_helpers.py) as translated by harness/translate/obsl.py, including the `UNOBSERVABLE_VALUES` list (its
+three names are part of the generated term and are compared by identity), for every heap, graph, handler key,
+old / new value and well-formed hooks. -/
+theorem C08_maintain_is_source (h : Heap) (k : HKey) (g : Graph) (o : Id) (old new : Val) (H : Hooks) (hw : WF H)
+    (n : Nat) (hn : need g ≤ n) :
+    run h Generated.observeProg (n + 1) (.fn "observer_change_handler" (handlerArgs old new g k)) (H, []) =
+      (((maintTrait h .trait g k o old new H).H, []), flowOf (maintTrait h .trait g k o old new H).err) ∧
+    Generated.observeProg.unobservable = ["Undefined", "Uninitialized", "None"] :=
+  ⟨run_change_handler h k g o old new H hw n hn, rfl⟩
+
+/-! ### `del obj.trait` (`Mutation.delField`, ctraits.c:2441-2489) -/
+
+/-- STATED EXCEPTION (finding F99, known).  `HooksEqReach` is NOT preserved by `del obj.trait` when
+the default is an object: `a.child` holds its dynamic default `d`, `a.observe(h, "child.value")`,
+the invariant holds; `del a.child` reads the attribute back through `getattr_trait`, which announces
+`Uninitialized -> d`, and (when the value changed) announces `old -> d` again: `d.value` carries the
+user notifier with reference count 2 where exactly one path reaches it, and after `a.child = other`
+the detached `d` still calls the handler (without the `del` it does not). -/
+theorem C08_del_rehooks_default_twice :
+    (HooksEqReach DelWitness.wSt.h DelWitness.wSt.H DelWitness.wRegs ∧
+      ¬ HooksEqReach DelWitness.wDel.h DelWitness.wDel.H DelWitness.wRegs) ∧
+    (cnt DelWitness.wDel.H (.trait 1 nValue) (.user DelWitness.wKey) = 2 ∧
+      specCnt DelWitness.wDel.h DelWitness.wRegs (.trait 1 nValue) (.user DelWitness.wKey) = 1) ∧
+    (let s1 := (mutate {} DelWitness.wDel (.setField 0 nChild (.ref 2) 0)).st
+     specCnt s1.h DelWitness.wRegs (.trait 1 nValue) (.user DelWitness.wKey) = 0 ∧
+     (mutate {} s1 (.setField 1 nValue (.int 4) 0)).delivered =
+       [.trait DelWitness.wKey 1 nValue (.int 3) (.int 4)]) :=
+  ⟨DelWitness.del_breaks_invariant,
+   ⟨DelWitness.wDel_facts.2.2.2.2.1, DelWitness.wDel_facts.2.2.2.2.2⟩,
+   DelWitness.detached_default_still_notifies⟩
+
+/-- `del obj.trait` preserves `HooksEqReach` (and raises nothing) on the fragment where the double
+announcement is harmless: (1) the trait is not in `__dict__` — nothing happens at all
+(ctraits.c:2451-2454); (2) its default `d` holds no object (None / Undefined): `Uninitialized -> d`
+hooks nothing and `old -> d` is the ordinary assignment of `d`; (3) the trait carries no notifier:
+the default comes back silently.  (2) and (3) under the hypotheses `SetFrag` of the assignment
+theorem `C08_hooks_eq_reach_partial` for the value `d`.  The full statement — for every default —
+is false: `C08_del_rehooks_default_twice`. -/
+theorem C08_hooks_eq_reach_partial_del (E : Env) (st : St) (regs : List Reg) (o : Id) (n : Name) (d : Val)
+    (fresh : Id) (fs : List Field) (f : Field) (hinv : HooksEqReach st.h st.H regs) :
+    (st.h.get o = .inst fs → findField fs n = some f → f.val = .unset →
+      mutate E st (.delField o n fresh) = ⟨st, [], none⟩) ∧
+    (SetFrag E st regs o n d fs f → f.dflt = .val d → valObjects d = [] →
+      HooksEqReach (mutate E st (.delField o n fresh)).st.h (mutate E st (.delField o n fresh)).st.H regs ∧
+      (mutate E st (.delField o n fresh)).err = none) ∧
+    (SetFrag E st regs o n d fs f → f.dflt = .val d → st.H.get (.trait o n) = [] →
+      HooksEqReach (mutate E st (.delField o n fresh)).st.h (mutate E st (.delField o n fresh)).st.H regs ∧
+      (mutate E st (.delField o n fresh)).err = none ∧ (mutate E st (.delField o n fresh)).delivered = []) :=
+  ⟨fun ho hf hu => delField_unset_noop E st o n fresh fs f ho hf hu,
+   fun fr hd hn => delField_preserves_scalar_default E st regs o n d fresh fs f hinv fr hd hn,
+   fun fr hd he => delField_preserves_unhooked E st regs o n d fresh fs f hinv fr hd he⟩
+
+/-- non-vacuity of `C08_hooks_eq_reach_partial_del` (2): `mate` holds `d`, its default is None;
+`del a.mate` unhooks `d.value` and delivers the one change event -/
+example :
+    cnt DelWitness.pSt.H (.trait 1 nValue) (.user DelWitness.wKey) = 1 ∧
+    cnt (mutate {} DelWitness.pSt (.delField 0 nMate 100)).st.H (.trait 1 nValue) (.user DelWitness.wKey) = 0 ∧
+    (mutate {} DelWitness.pSt (.delField 0 nMate 100)).delivered =
+      [.trait DelWitness.wKey 0 nMate (.ref 1) .none] := by
   decide
 
 end TraitsVerif.Props.C08
